@@ -685,7 +685,7 @@ Print Assumptions C10_protect_online_cache_cases.
    the cache contents (the callee _get_protection_gke_from_cache does not raise; a cached envelope it finds names the hash h);
    histories and the two corollaries below are for {load_key, unprotect} histories.
    ---------------------------------------------------------------------------------------------------------------- *)
-From V Require Import Model.Chain Model.KeyId Model.SecDesc Model.Blob Model.Interval.
+From V Require Import gen.Consts gen.K_gkdi Model.Chain Model.KeyId Model.SecDesc Model.Blob Model.Interval.
 From V Require Import Proofs.C10Refine Proofs.C10RefineEx.
 
 Theorem C10_refine_code : forall b, dec (code b) = b.
@@ -768,8 +768,10 @@ Theorem C10_concrete_no_repeat_rpc : forall c h cdc ctruth,
 Proof. exact concrete_no_repeat_rpc. Qed.
 Print Assumptions C10_concrete_no_repeat_rpc.
 (* C10_transparent transferred: in every valid history a completed unprotect call decrypts with an envelope (cached, or the DC's
-   reply) that is for the blob's L0 and whose L2 key at the blob's position - what get_kek derives the KEK from - is the MS-GKDI
-   chain key of (root key id, target SD, L0, L1, L2) under the true root key *)
+   reply) that is for the blob's L0 and whose L2 key at the blob's position is the MS-GKDI chain key of (root key id, target SD,
+   L0, L1, L2) under the true root key; and that key is what get_kek derives the KEK from (last clause) - PROVIDED the envelope's
+   own KDF parameters name the hash h the abstract kdf is instantiated with (envelope_hash rk = Ok h: abs_env forgets the KDF
+   parameters).  Without that hypothesis the statement would be about a key the call does not derive: C10_refine_ex_wrong_hash. *)
 Theorem C10_concrete_transparent : forall c h cdc ctruth,
   dc_conforming_ok (akdf c h) (al1seed c) (adc_of cdc) (atruth ctruth) -> dc_explicit_ok (adc_of cdc) ->
   forall evs data b sd server u p a rk,
@@ -777,10 +779,16 @@ Theorem C10_concrete_transparent : forall c h cdc ctruth,
   let kid := b_key_identifier b in
   0 <= kid_l1 kid <= 31 -> 0 <= kid_l2 kid <= 31 ->
   unprotect_envelope c dns_of (getkey_of cdc) (crun c cdc evs) data server u p a = Ok rk -> gke_is_public_key rk = false ->
+  envelope_hash rk = Ok h ->
   fst (unprotect_online c dns_of (getkey_of cdc) (crun c cdc evs) data server u p a) = decrypt_blob c b rk /\
   gke_l0 rk = kid_l0 kid /\
   Chain.compute_l2_key c h (kid_l1 kid) (kid_l2 kid) rk
-  = key_at (akdf c h) (al1seed c) (atruth ctruth) (code (kid_rkid kid)) (code sd) (kid_l0 kid) (kid_l1 kid) (kid_l2 kid).
+  = key_at (akdf c h) (al1seed c) (atruth ctruth) (code (kid_rkid kid)) (code sd) (kid_l0 kid) (kid_l1 kid) (kid_l2 kid) /\
+  get_kek c rk kid
+  = (let* l2_key := key_at (akdf c h) (al1seed c) (atruth ctruth) (code (kid_rkid kid)) (code sd) (kid_l0 kid) (kid_l1 kid) (kid_l2 kid) in
+     if kid_is_public_key kid
+     then compute_kek_from_public_key c h l2_key (gke_secret_alg rk) (gke_secret_params rk) (kid_key_info kid) (K_gkdi.k_ceil_priv_get (gke_priv_len rk))
+     else Ok (kdf c h l2_key Consts.c_KDS_SERVICE_LABEL (kid_key_info kid) K_gkdi.k_kek_len_nonce_get)).
 Proof. exact concrete_transparent. Qed.
 Print Assumptions C10_concrete_transparent.
 
@@ -806,3 +814,30 @@ Example C10_refine_ex_transparent :
   Chain.compute_l2_key C01Lib.symg SHA512 31 23 rx_env
   = key_at (akdf C01Lib.symg SHA512) (al1seed C01Lib.symg) (atruth rx_truth) (code rx_rkid) (code rx_sd) 361 31 23.
 Proof. exact rx_transparent. Qed.
+(* the hash hypothesis of C10_concrete_transparent is needed: the same instance with the abstract kdf at SHA256 (the envelope names
+   SHA512) meets every other hypothesis (same public-only DC: C10_refine_ex_conforming_256), and the SHA256 chain key is not the key
+   the call derives *)
+Example C10_refine_ex_conforming_256 :
+  dc_conforming_ok (akdf C01Lib.symg SHA256) (al1seed C01Lib.symg) (adc_of rx_dc) (atruth rx_truth) /\ envelope_hash rx_env = Ok SHA512.
+Proof. exact (conj rx_dc_conforming_256 rx_env_hash). Qed.
+Example C10_refine_ex_wrong_hash :
+  envelope_hash rx_env <> Ok SHA256 /\
+  Chain.compute_l2_key C01Lib.symg SHA512 31 23 rx_env
+  <> key_at (akdf C01Lib.symg SHA256) (al1seed C01Lib.symg) (atruth rx_truth) (code rx_rkid) (code rx_sd) 361 31 23.
+Proof. exact rx_wrong_hash. Qed.
+(* a DC whose conformance is NOT vacuous: sx_dc answers with the private (31, 31) seed envelope of the true root key.  No root key
+   is loaded; the first unprotect obtains the envelope by RPC and the cache keeps it (the roots stay empty); the next unprotect of
+   the blob is served from that RPC-obtained entry: offline function for every network oracle, and the plaintext *)
+Example C10_refine_ex_seed_hypotheses :
+  dc_conforming_ok (akdf C01Lib.symg SHA512) (al1seed C01Lib.symg) (adc_of sx_dc) (atruth rx_truth) /\
+  (Forall cev_ok sx_evs /\ Forall (cev_true rx_truth) sx_evs) /\
+  (c_served (crun C01Lib.symg sx_dc sx_evs) rx_rkid rx_sd 361 31 31 /\ cc_roots (crun C01Lib.symg sx_dc sx_evs) = []).
+Proof. exact (conj sx_dc_conforming (conj sx_ok sx_served)). Qed.
+Example C10_refine_ex_seed_private : gke_is_public_key (sx_dc rx_sd (Some rx_rkid) 361 31 23) = false.
+Proof. vm_compute. reflexivity. Qed.
+Example C10_refine_ex_seed_no_rpc : forall dns getkey server u p a,
+  unprotect_online C01Lib.symg dns getkey (crun C01Lib.symg sx_dc sx_evs) rx_B server u p a
+  = unprotect_offline C01Lib.symg (crun C01Lib.symg sx_dc sx_evs) rx_B.
+Proof. exact sx_no_rpc. Qed.
+Example C10_refine_ex_seed_plaintext : fst (unprotect_offline C01Lib.symg (crun C01Lib.symg sx_dc sx_evs) rx_B) = Ok rx_data.
+Proof. exact sx_plaintext. Qed.
